@@ -35,6 +35,7 @@ type errUnsupported struct{ msg string }
 func (e errUnsupported) Error() string { return "unsupported in lowering: " + e.msg }
 
 type lowerer struct {
+	ufs   map[string]bool
 	th    theory
 	names map[*Term]string
 	next  int
@@ -330,6 +331,23 @@ func (l *lowerer) lower(t *Term) (string, error) {
 				hi = new(big.Int).Sub(pow2(uint(x.w)), big.NewInt(1))
 			}
 			body = fmt.Sprintf("(let ((r (%s %s %s))) (and (>= r %s) (<= r %s)))", o, a[0], a[1], intLit(lo), intLit(hi))
+		}
+	case OpUF:
+		fname := "uf_" + t.name
+		if !l.ufs[fname] {
+			if l.ufs == nil {
+				l.ufs = map[string]bool{}
+			}
+			l.ufs[fname] = true
+			var ss []string
+			for _, x := range t.args {
+				ss = append(ss, l.sort(x))
+			}
+			fmt.Fprintf(l.out, "(declare-fun %s (%s) %s)\n", fname, strings.Join(ss, " "), l.sort(t))
+		}
+		body = fmt.Sprintf("(%s %s)", fname, strings.Join(a, " "))
+		if !bv {
+			body = l.wrap(body, t.w, t.signed)
 		}
 	default:
 		return "", errUnsupported{opNames[t.op]}
